@@ -40,7 +40,7 @@ STRICT_ROLLBACK = os.environ.get('C03_STRICT_ROLLBACK', '1') == '1'
 
 
 def resolves(kind):
-    return kind != 'mapping'
+    return kind not in ('mapping', 'mvccmapping')
 
 
 # =============================================================================== oracle on a trace
@@ -682,7 +682,8 @@ def run_storage_real(case, tmp, tag='s'):
 
 def model_lines(kind, ops):
     # a record-transforming wrapper (hex:…) is the identity at the model's record level
-    return ['reset ' + (kind[4:] if kind.startswith('hex:') else kind)] + L.class_lines() + ops
+    kind = kind[4:] if kind.startswith('hex:') else kind
+    return ['reset ' + ('mapping' if kind == 'mvccmapping' else kind)] + L.class_lines() + ops
 
 
 # =============================================================================== (b) DB level
@@ -1533,7 +1534,9 @@ def main(argv=None):
                     with open(os.path.join(cdir, fn)) as f:
                         cases.append(json.load(f))
         n_st, n_db, n_sc = (60, 40, 100) if not ck.thorough else (2500, 1500, 4000)
-        for kind in KINDS:
+        for kind in KINDS + ['mvccmapping']:
+            if kind == 'mvccmapping':
+                n_st, n_db, n_sc = n_st // 3, n_db, n_sc // 2
             for _ in range(n_st):
                 cases.append(gen_storage_case(ck.rng, kind, ck.rng.choice([12, 25, 40, 60])))
             if kind == 'file':
